@@ -26,6 +26,8 @@ type C12Scenario struct {
 	CliHistory [][]int `json:"cli_history,omitempty"`
 	// CliTmpOtherFS: the CLI processes run with $TMPDIR on another file system
 	CliTmpOtherFS bool `json:"cli_tmp_other_fs,omitempty"`
+	// CliUnpriv: the CLI processes run as an ordinary user owning the working directory
+	CliUnpriv bool `json:"cli_unpriv,omitempty"`
 	// CliEdit[k]: step k does not analyse again: the sources of step k-1 are edited in place (the
 	// files listed in CliStripped[k-1], which were plain classes there, get their controller
 	// annotations) and only `coca api -f -c` runs, on a deps.json that predates the edit
@@ -34,6 +36,9 @@ type C12Scenario struct {
 	// CliFlags[k]: how step k spells `coca api`: 0 `-f -c`, 1 `-f -c -s`, 2 `-f`, 3 `-f -s`, 4 `-f -c -a <first 4 bytes of the first URI>` (the list
 	// and the csv rows are the same collection under every spelling)
 	CliFlags []int `json:"cli_flags,omitempty"`
+	// CliTorn[k] > 0: before step k the reports left in coca_reporter/ are cut to CliTorn[k] percent of
+	// their length (0 bytes for 100): what a command interrupted in the middle of its writes leaves
+	CliTorn []int `json:"cli_torn,omitempty"`
 }
 
 type C12 struct{}
@@ -107,8 +112,17 @@ func (C12) Generate(t *tape.Tape, tier string) interface{} {
 		sc.CliTmpOtherFS = t.Bool(1, 3)
 	}
 	sc.CwdIgnore = t.Bool(1, 3)
+	sc.CliUnpriv = t.Bool(1, 4)
 	for range sc.CliHistory {
 		sc.CliFlags = append(sc.CliFlags, t.Pick(5))
+		torn := 0
+		if t.Bool(1, 4) {
+			torn = 1 + t.Pick(100)
+			if t.Bool(1, 3) {
+				torn = 100 // cut to nothing
+			}
+		}
+		sc.CliTorn = append(sc.CliTorn, torn)
 	}
 	return sc
 }
@@ -395,6 +409,20 @@ func (C12) Run(ctx *sim.RunCtx, data json.RawMessage) (*sim.Outcome, error) {
 					wantUris = append(wantUris, a.Uri)
 				}
 			}
+			if k > 0 && !edit && k < len(sc.CliTorn) && sc.CliTorn[k] > 0 {
+				// the previous command was interrupted while writing: its reports are torn
+				if ents, err := os.ReadDir(filepath.Join(cwd, "coca_reporter")); err == nil {
+					for _, e := range ents {
+						p := filepath.Join(cwd, "coca_reporter", e.Name())
+						if b, err := os.ReadFile(p); err == nil && !e.IsDir() && !strings.HasSuffix(e.Name(), ".tmp") {
+							keep := len(b) * (sc.CliTorn[k] % 100) / 100
+							os.WriteFile(p, b[:keep], 0644)
+						}
+					}
+					plantTmp(filepath.Join(cwd, "coca_reporter"), []string{"deps.json", "identify.json", "apis.json", "api.csv", "api.dot"})
+					out.Faults["reports-torn-by-interrupted-run"]++
+				}
+			}
 			hist = append(hist, fmt.Sprintf("cli%d", len(sub)))
 			out.Faults["durable-reports-carried-over"]++
 			ended := ""
@@ -423,13 +451,16 @@ func (C12) Run(ctx *sim.RunCtx, data json.RawMessage) (*sim.Outcome, error) {
 				cmdLines = cmdLines[1:]
 			}
 			for _, args := range cmdLines {
-				res, err := ctx.Run(&sim.Proc{Schedule: sim.Canonical(), Cwd: cwd, TmpOtherFS: sc.CliTmpOtherFS, Ops: []sim.Op{{Op: "cli", Args: map[string]interface{}{"args": args}}}})
+				res, err := ctx.Run(&sim.Proc{Schedule: sim.Canonical(), Cwd: cwd, TmpOtherFS: sc.CliTmpOtherFS, Unprivileged: sc.CliUnpriv, Ops: []sim.Op{{Op: "cli", Args: map[string]interface{}{"args": args}}}})
 				if err != nil {
 					return nil, err
 				}
 				out.Faults["restart"]++
 				if sc.CliTmpOtherFS {
 					out.Faults["tmpdir-on-other-fs"]++
+				}
+				if sc.CliUnpriv {
+					out.Faults["unprivileged-user"]++
 				}
 				if !res.Completed(0) || !res.Records[0].OK {
 					ended = args[0]
